@@ -8,6 +8,7 @@ HERE = os.path.dirname(os.path.dirname(os.path.abspath(__file__)))
 sys.path.insert(0, HERE)
 
 NOT_APPLICABLE = {}  # property id -> reason (kept current by hand)
+READY = ['C01', 'C19']  # checks validated on the unchanged tree (seed sweep + mutants) - only these are claimed
 
 
 def main():
@@ -16,7 +17,7 @@ def main():
     missing = []
     for pid in props:
         path = os.path.join(HERE, 'checks', pid.lower() + '.py')
-        if not os.path.exists(path) or pid in NOT_APPLICABLE:
+        if not os.path.exists(path) or pid in NOT_APPLICABLE or pid not in READY:
             missing.append(pid)
             continue
         mod = importlib.import_module('checks.' + pid.lower())
